@@ -13,7 +13,9 @@ for f in kf:
     if f["status"] != "known" or f["property"] == "C11":
         continue
     k = f["key"]
-    mech = k["kind"] if f["property"] != "C06" else f"{k['exc']} raised in {k['file']}"
+    mech = k["kind"] if f["property"] != "C06" else f"{k['exc']} raised in {k['file']}" + (f" ({', '.join(f['sites'])})" if f.get("sites") else "")
+    if k.get("context"):
+        mech += f" [{k['context']}]"
     rows.append(f"| {f['property']} | {k['optimizer'].replace('Optimization', '')} | {mech} | {f.get('audit_count', '')} | {why[f['property']]} |")
 t83 = "\n".join(rows)
 summ = json.load(open(os.path.join(here, "selftest", "seeded_summaries.json")))
